@@ -188,6 +188,61 @@ def wide(t):
     return re.sub(r" as (i16|u16|i32|u32|i64|u64|isize|usize)\b", " as W", t)
 
 
+def predictor_geometry(ctx, F, pr, png):
+    """The two numbers handed to png::decode_frame, folded as integer expressions of the DecodeParms entries and compared with
+    the definitions over the legal parameter space: bytes per pixel = Colors x BitsPerComponent / 8 (BitsPerComponent 8 or 16),
+    pixels per row = Columns.  The roles of decode_frame's own parameters are fixed by the PNG shape table (png_rules)."""
+    import symeval
+    from mir import op_place
+    if len(png) != 1:
+        ctx.ob("R-TABLE", "predictor-geometry", False, "", pr.where(), what="decompress_predictor does not call png::decode_frame exactly once")
+        return
+
+    def key_of(b, t, depth=6):
+        """the dictionary key whose integer value the call chain `get(b"Key").and_then(as_i64)...` yields"""
+        if depth <= 0:
+            return None
+        fn = (t["f"].get("fn") or "")
+        if fn.endswith("Dictionary::get") or fn.endswith("Dictionary::get_deref"):
+            return lib._const_bytes_through(b, t["args"][1])
+        if fn.rsplit("::", 1)[-1] in ("and_then", "map", "ok", "branch", "copied", "cloned") and t["args"]:
+            q = op_place(t["args"][0])
+            d = b.single_def(q["l"]) if q is not None else None
+            if d and d[2] == "call":
+                return key_of(b, d[3], depth - 1)
+        return None
+
+    def mk_leaf(env):
+        def leaf(b, kind, x):
+            if kind != "call":
+                return None
+            fn = (x["f"].get("fn") or "")
+            if fn.rsplit("::", 1)[-1] in ("unwrap_or", "unwrap_or_default") and x["args"]:
+                q = op_place(x["args"][0])
+                d = b.single_def(q["l"]) if q is not None else None
+                if d and d[2] == "call":
+                    k = key_of(b, d[3])
+                    if k in env:
+                        return env[k]
+            return None
+        return leaf
+    bad = []
+    n = 0
+    for columns in (1, 2, 5, 31, 1000):
+        for colors in (1, 2, 3, 4):
+            for bits in (8, 16):
+                env = {b"Columns": columns, b"Colors": colors, b"BitsPerComponent": bits, b"Predictor": 12}
+                ev = symeval.Eval(F, pr, mk_leaf(env))
+                bpp = ev.val(png[0].args[1])
+                ppr = ev.val(png[0].args[2])
+                n += 1
+                if bpp != colors * bits // 8 or ppr != columns:
+                    bad.append((columns, colors, bits, bpp, ppr))
+    ctx.ob("R-TABLE", "predictor-geometry", not bad, "decode_frame(data, Colors*BitsPerComponent/8, Columns) at %d points of the legal parameter space" % n, pr.where(png[0].ln),
+           what="decompress_predictor hands png::decode_frame the wrong geometry: for Columns=%s Colors=%s BitsPerComponent=%s it passes bytes-per-pixel=%s, pixels-per-row=%s (expected %s and %s)"
+                % ((bad[0][0], bad[0][1], bad[0][2], bad[0][3], bad[0][4], bad[0][1] * bad[0][2] // 8, bad[0][0]) if bad else ("",) * 7))
+
+
 def png_rules(ctx, F):
     R = "R-TABLE"
     b = F.fn("filters::png::decode_row")
@@ -446,6 +501,7 @@ def filter_rules(ctx, F):
     keys = set(lib._const_bytes_through(b2, c.args[1]) for b2 in F.with_closures(pr) for c in b2.calls if c.local and c.cname.endswith("Dictionary::get"))
     ctx.ob("R-TABLE", "predictor-params", {b"Predictor", b"Columns", b"Colors", b"BitsPerComponent"} <= keys, "Predictor, Columns, Colors, BitsPerComponent are read", pr.where(),
            what="decompress_predictor no longer reads all of Predictor, Columns, Colors, BitsPerComponent")
+    predictor_geometry(ctx, F, pr, png)
     png_rules(ctx, F)
     # 7. LZW / ASCII85 constants
     lz = F.fn("Stream::decompress_lzw")
